@@ -87,6 +87,20 @@ CLAIMED["C09"] = ("Theorems C09_* (coq/Properties/C09.v), decided by vm_compute 
                   "payload slot or to the name counter. Random interleaved histories (factory calls, compile, process+execute, "
                   "diagnostics, rebuild) re-fingerprint every earlier relation and leaf payload cell after each event. Partial by "
                   "nature: aliasing outside the enumerated sites is not exhibited by the model.", "DESIGN.md §4 C09")
+CLAIMED["C02"] = ("Theorems C02_* (coq/Properties/C02.v), layer (a): Select.apply_skip and every rule of _append_unary_to_select "
+                  "(calculation, deduplication, projection incl. push-down into UNION operands, selection, slice, sort; every slot "
+                  "state) return a conformed relation whose denotation is the applied operation's — list equality, all parameters, "
+                  "all row lists. Layer (b) (to_payload/_select_to_executable and the database) and the binary rules are not proved: "
+                  "they are decided per run by executing the compiled SQL on a real SQLite under both scan orders and comparing the "
+                  "multiset with the specification (forced classes for every repaired defect). Partial.", "DESIGN.md §4 C02")
+CLAIMED["C08"] = ("Theorem C08_accepted_iteration_program_executes: accepted iteration programs execute (to the specification's rows). "
+                  "For the SQL engine the theorem only fixes the shape handed to the compiler; 'compiles and the database accepts it' "
+                  "is decided per run on random programs with joins of chains, chains of joins and expression sorts, executed on "
+                  "SQLite. Known finding F14 (nested compound operands, pinned by the suite). Partial.", "DESIGN.md §4 C08")
+CLAIMED["C11"] = ("Theorems C11_* (coq/Properties/C11.v): in the model of the SQL engine the rows' order is part of the denotation and is "
+                  "preserved by the slice and sort rules for every slot state; binary operations and materialization refuse an "
+                  "unsliced sort with the row-order-loss error. That the emitted ORDER BY/LIMIT/OFFSET make the database return that "
+                  "list is decided per run on SQLite (list comparison, both scan orders). Partial.", "DESIGN.md §4 C11")
 NOT_APPLICABLE = {}
 
 
